@@ -217,7 +217,7 @@ theorem C15_shutdown_voids (s : State) (h : 0 < buffered s) :
 def c15cfg : Cfg :=
   { maxWeight := 100, shards := 4, cmdCap := 4, poolSize := 1, bufSize := 1, counters := 2, bufChanCap := 1 }
 
-/-- put key 5, let the worker admit it, then `n` hits (each choosing buffer 0 of the pool) -/
+/-- put key 5, have the worker accept it, then `n` hits (each choosing buffer 0 of the pool) -/
 def c15history (n : Nat) : List (Ev × Oracle) :=
   [(.put 0 5 7, ({} : Oracle)), (.worker, ({} : Oracle))] ++ List.replicate n (.get 5, { pool := [0] })
 
@@ -239,6 +239,18 @@ example : c15view (c15run (c15history 3)) = some [3, 0, 1, 1, 1, 1, 0, 3] := by 
 example : c15view (c15run (c15history 3 ++ [(.consumer, { dkAdd := [true] }), (.get 5, { pool := [0] })])) =
     some [4, 0, 1, 2, 1, 1, 1, 4] := by decide
 
+/-- the two identities, checked on each of the four states above -/
+def c15ok (r : Option (State × Ghost)) : Bool :=
+  match c15view r with
+  | some [hits, _, buf, added, dropped, queued, applied, _] =>
+    decide (hits = buf + added + dropped) && decide (added = queued + applied)
+  | _ => false
+
+example : c15ok (c15run (c15history 1)) = true ∧ c15ok (c15run (c15history 2)) = true ∧
+    c15ok (c15run (c15history 3)) = true ∧
+    c15ok (c15run (c15history 3 ++ [(.consumer, { dkAdd := [true] }), (.get 5, { pool := [0] })])) = true := by
+  decide
+
 /-- These states are reachable (so `C15_conservation` applies to them) and not shut down. -/
 example : ∃ s g, ReachG c15cfg 0 [1, 2] s g ∧ s.shutting = false ∧ s.stats.accessDropped = 1 ∧
     s.stats.accessAdded = 1 ∧ buffered s = 1 ∧ s.stats.hits = 3 := by
@@ -258,6 +270,12 @@ example : ∃ s g, ReachG c15cfg 0 [1, 2] s g ∧ s.shutting = false ∧ s.stats
 example : (c15run (c15history 0)).map (fun p =>
       ((readKey p.1 5 { pool := [0] }).toOption.map (fun r => r.2.1),
        (readKey p.1 6 ({} : Oracle)).toOption.map (fun r => r.2.1))) = some (some (some 7), some none) := by decide
+
+/-- `multi_get` of a held and an absent key: one answer each, one hit and one miss -/
+example : (c15run (c15history 0)).map (fun p =>
+      match clientMultiGet p.1 [5, 6] { pool := [0] } with
+      | .ok (s', .values vs, _) => some (vs, s'.stats.hits, s'.stats.misses)
+      | _ => none) = some (some ([some 7, none], 1, 1)) := by decide
 
 /-- hypotheses of `C15_saturated_consumer_drops_whole_buffers`: both branches occur -/
 example : (c15run (c15history 1)).map (fun p => decide (p.1.consumerAlive = false ∨ p.1.bufq.length ≥ p.1.cfg.bufChanCap)) = some false ∧
